@@ -138,3 +138,249 @@ impl LsmTree {
         Ok(Some(desc))
     }
 }
+
+///////////////////////////////////// selector on a given tree /////////////////////////////////////
+
+use std::sync::{Arc, Mutex};
+
+use super::{CompactionCore, CompactionID, Level, Version};
+use crate::LsmtkOptions;
+
+fn verif_describe(core: &CompactionCore) -> VerifCompaction {
+    VerifCompaction {
+        lower_level: core.lower_level,
+        upper_level: core.upper_level,
+        first_key: core.first_key.clone(),
+        last_key: core.last_key.clone(),
+        inputs: core.inputs.iter().map(|x| x.hexdigest()).collect(),
+        size: core.size,
+    }
+}
+
+/// The selector on a tree given level by level (no file is touched): a `Version` with these
+/// options, levels and ongoing compactions is asked `should_stall_ingest`,
+/// `should_perform_mandatory_compaction` and `next_compaction`.
+pub fn verif_select(
+    options: LsmtkOptions,
+    levels: Vec<Vec<SstMetadata>>,
+    ongoing: Vec<VerifCompaction>,
+) -> (bool, bool, Option<VerifCompaction>) {
+    let levels = levels
+        .into_iter()
+        .map(|ssts| Level {
+            ssts: ssts.into_iter().map(Arc::new).collect(),
+        })
+        .collect();
+    let ongoing = ongoing
+        .into_iter()
+        .map(|c| {
+            Arc::new(CompactionCore {
+                compaction_id: CompactionID::BOTTOM,
+                lower_level: c.lower_level,
+                upper_level: c.upper_level,
+                first_key: c.first_key,
+                last_key: c.last_key,
+                inputs: c
+                    .inputs
+                    .iter()
+                    .map(|x| setsum::Setsum::from_hexdigest(x).unwrap_or_default())
+                    .collect(),
+                size: c.size,
+            })
+        })
+        .collect();
+    let version = Version {
+        options,
+        levels,
+        ongoing: Arc::new(Mutex::new(ongoing)),
+    };
+    let stall = version.should_stall_ingest();
+    let mandatory = version.should_perform_mandatory_compaction();
+    let chosen = version.next_compaction().map(|c| verif_describe(&c.core));
+    (stall, mandatory, chosen)
+}
+
+//////////////////////////////////// the wake-up protocol, observed ////////////////////////////////
+
+pub(super) const VERIF_STALL: usize = 0;
+pub(super) const VERIF_COMPACT: usize = 1;
+
+#[derive(Default)]
+struct VerifProtoInner {
+    // threads inside Condvar::wait on [stall, compact] that no notify_all has reached yet
+    waiting: [usize; 2],
+    generation: [u64; 2],
+    tracing: bool,
+    trace: Vec<String>,
+}
+
+/// Who is parked on which condition variable, and (when switched on) the order of the critical
+/// sections of the compaction mutex.  Every method is called with the compaction mutex held, so
+/// the counters are exact for anyone who holds that mutex.
+#[derive(Default)]
+pub struct VerifProto {
+    inner: Mutex<VerifProtoInner>,
+}
+
+fn verif_tid() -> String {
+    format!("{:?}", std::thread::current().id())
+        .chars()
+        .filter(|c| c.is_ascii_digit())
+        .collect()
+}
+
+fn verif_hex(bytes: &[u8]) -> String {
+    if bytes.is_empty() {
+        return "-".to_string();
+    }
+    bytes.iter().map(|b| format!("{b:02x}")).collect()
+}
+
+fn verif_meta(md: &SstMetadata) -> String {
+    format!(
+        "{}:{}:{}:{}:{}:{}",
+        verif_hex(&md.setsum),
+        verif_hex(&md.first_key),
+        verif_hex(&md.last_key),
+        md.smallest_timestamp,
+        md.biggest_timestamp,
+        md.file_size
+    )
+}
+
+fn verif_core(core: &CompactionCore) -> String {
+    format!(
+        "{} {} {} {} {} {}",
+        core.lower_level,
+        core.upper_level,
+        verif_hex(&core.first_key),
+        verif_hex(&core.last_key),
+        core.size,
+        core.inputs
+            .iter()
+            .map(|x| x.hexdigest())
+            .collect::<Vec<_>>()
+            .join(",")
+    )
+}
+
+pub(super) fn verif_describe_apply(compaction: &super::Compaction, outputs: &[SstMetadata]) -> String {
+    format!(
+        "{} | {}",
+        verif_core(&compaction.core),
+        outputs.iter().map(verif_meta).collect::<Vec<_>>().join(" ")
+    )
+}
+
+impl VerifProto {
+    fn log(inner: &mut VerifProtoInner, what: String) {
+        if inner.tracing {
+            inner.trace.push(what);
+        }
+    }
+
+    /// Just before `Condvar::wait`.
+    pub(super) fn park(&self, which: usize) -> u64 {
+        let mut inner = self.inner.lock().unwrap();
+        inner.waiting[which] += 1;
+        let name = if which == VERIF_STALL { "stall" } else { "compact" };
+        Self::log(&mut inner, format!("park {} {}", verif_tid(), name));
+        inner.generation[which]
+    }
+
+    /// Just after `Condvar::wait` returned.
+    pub(super) fn unpark(&self, which: usize, generation: u64) {
+        let mut inner = self.inner.lock().unwrap();
+        let spurious = inner.generation[which] == generation;
+        if spurious {
+            inner.waiting[which] -= 1;
+        }
+        let name = if which == VERIF_STALL { "stall" } else { "compact" };
+        Self::log(
+            &mut inner,
+            format!("wake {} {} {}", verif_tid(), name, if spurious { "spurious" } else { "notified" }),
+        );
+    }
+
+    /// Just before `Condvar::notify_all`.
+    pub(super) fn notified(&self, which: usize) {
+        let mut inner = self.inner.lock().unwrap();
+        inner.waiting[which] = 0;
+        inner.generation[which] += 1;
+    }
+
+    pub(super) fn selected(&self, compaction: Option<&super::Compaction>) {
+        let mut inner = self.inner.lock().unwrap();
+        let what = match compaction {
+            Some(c) => format!("select {} {}", verif_tid(), verif_core(&c.core)),
+            None => format!("select {} none", verif_tid()),
+        };
+        Self::log(&mut inner, what);
+    }
+
+    pub(super) fn released(&self, compaction: &super::Compaction) {
+        let mut inner = self.inner.lock().unwrap();
+        let what = format!("release {} {}", verif_tid(), verif_core(&compaction.core));
+        Self::log(&mut inner, what);
+    }
+
+    pub(super) fn ingested(&self, md: &SstMetadata) {
+        let mut inner = self.inner.lock().unwrap();
+        let what = format!("ingest {} {}", verif_tid(), verif_meta(md));
+        Self::log(&mut inner, what);
+    }
+
+    pub(super) fn applied(&self, what: String) {
+        let mut inner = self.inner.lock().unwrap();
+        let what = format!("apply {} {}", verif_tid(), what);
+        Self::log(&mut inner, what);
+    }
+}
+
+/// What `verif_parked` reports.
+#[derive(Clone, Debug)]
+pub struct VerifParked {
+    /// threads parked on the `stall` condition variable with no notification pending
+    pub stall: usize,
+    /// threads parked on the `compact` condition variable with no notification pending
+    pub compact: usize,
+    /// compactions selected and not yet applied or released
+    pub ongoing: usize,
+    pub should_stall: bool,
+}
+
+impl LsmTree {
+    /// Taken under the compaction mutex: which condition variable the store's threads are parked
+    /// on.  A thread counted here is inside `Condvar::wait` and has not been notified since.
+    pub fn verif_parked(&self) -> VerifParked {
+        let _mutex = self.compaction.lock().unwrap();
+        let version = self.take_snapshot();
+        let inner = self.verif_proto.inner.lock().unwrap();
+        VerifParked {
+            stall: inner.waiting[VERIF_STALL],
+            compact: inner.waiting[VERIF_COMPACT],
+            ongoing: version.version.ongoing.lock().unwrap().len(),
+            should_stall: version.version.should_stall_ingest(),
+        }
+    }
+
+    /// Start or stop recording the order of the critical sections of the compaction mutex.
+    pub fn verif_trace(&self, on: bool) {
+        let _mutex = self.compaction.lock().unwrap();
+        self.verif_proto.inner.lock().unwrap().tracing = on;
+    }
+
+    /// The events recorded since the last call, together with the tree they lead to.
+    pub fn verif_take_trace(&self) -> (Vec<String>, Vec<(usize, SstMetadata)>) {
+        let _mutex = self.compaction.lock().unwrap();
+        let trace = std::mem::take(&mut self.verif_proto.inner.lock().unwrap().trace);
+        let version = self.take_snapshot();
+        let mut out = vec![];
+        for (idx, level) in version.version.levels.iter().enumerate() {
+            for sst in level.ssts.iter() {
+                out.push((idx, (**sst).clone()));
+            }
+        }
+        (trace, out)
+    }
+}
